@@ -57,6 +57,15 @@ struct C20Monitor : Monitor {
 		if (!known_reply_hashes.count(h)) return;       // iodined's own answer (tunnel/NS/A logic): not a relay
 		uint16_t id = d.data.size() >= 2 ? (uint16_t)((d.data[0] << 8) | d.data[1]) : 0;
 		w->probes["c20.relayed"]++;
+		if (d.data.size() < 12) {
+			// shorter than a DNS header: it bears no id (its first two octets, if any, are not an id field of a message), so it is
+			// nobody's reply
+			w->probes["c20.runt_relayed"]++;
+			bool asked = false; for (auto &r : ring) if (d.data.size() >= 2 && r.id == id && r.asker == d.dst.str()) asked = true;
+			if (!asked) { char b2[200]; snprintf(b2, sizeof b2, "a %zu-octet datagram from the local DNS port (first octets %02x %02x) was sent to %s, who asked nothing with such an id", d.data.size(), d.data[0], d.data.size() > 1 ? d.data[1] : 0, d.dst.str().c_str()); w->S.violate("C20", "relay.runt", b2); }
+			for (auto &r : step_replies) if (r.data == d.data) { r.relayed++; break; }
+			return;
+		}
 		std::vector<std::string> cand;
 		std::vector<Ring *> open;          // remembered queries with this id that have not had a reply yet
 		for (auto &r : ring) if (r.id == id) { cand.push_back(r.asker); if (!r.answered) open.push_back(&r); }
@@ -106,6 +115,7 @@ struct C20Monitor : Monitor {
 			w->S.violate("C20", x.asker_addr.fam == AF_INET6 ? "forward.missing.v6" : "forward.missing", b);
 		}
 		for (auto &r : step_replies) {
+			if (r.data.size() < 12) { w->probes["c20.runt_received"]++; continue; }      // not a DNS message: nothing is promised for it
 			std::vector<std::string> cand;
 			for (auto &e : ring) if (e.id == r.id) cand.push_back(e.asker);
 			bool open_left = false, amb = false;
@@ -262,6 +272,10 @@ World *build_forward(const J &plan)
 				a[6] = (uint8_t)((1 + extra) >> 8); a[7] = (uint8_t)(1 + extra);
 				S.count("fault.localdns.large_reply");
 				break; }
+			case 3:
+				// a runt: the first 1-11 octets only (a datagram shorter than a DNS header bears no id; one in four rolls)
+				if (S.D("ldns.runt", sk) % 4 == 0) { a.resize((size_t)S.R("ldns.runtlen", sk, 1, 11)); S.count("fault.localdns.runt"); }
+				break;
 			default: break;
 			}
 			Addr dst = d.src; Sock *ls = fw->local;
